@@ -536,4 +536,366 @@ theorem normalise_unit (lo hi v w : Rat) (hlt : lo < hi) (h1 : lo ≤ v) (h2 : v
   · have : (w - lo) / (hi - lo) ≤ 1 := by rw [div_le_one hd]; linarith
     linarith
 
+/-! ## axis labels -/
+
+/-- **Labels.**  Every successful plot of every kind ends by setting the axis labels to
+`"<dim> (<prefix><unit>)"` per axis, where `<prefix>` is the SI prefix whose table entry is
+the multiplier in force (`EndsWithLabels`, in `Lemmas/C20Plot.lean`); in particular a plot can
+only succeed with a multiplier of the SI table. -/
+theorem labels_eq (sqrtF : Rat → Rat) (f : Fld) (o : Opts) (calls : List PlotCall) :
+    (mplScalar f o = .ok calls → ∃ m, setupMultiplier f o.mult = .ok m ∧ EndsWithLabels f.mesh.region m calls) ∧
+    (mplContour f o = .ok calls → ∃ m, setupMultiplier f o.mult = .ok m ∧ EndsWithLabels f.mesh.region m calls) ∧
+    (mplVector f o = .ok calls → ∃ m, setupMultiplier f o.mult = .ok m ∧ EndsWithLabels f.mesh.region m calls) ∧
+    (mplDefault f o = .ok calls → ∃ m, setupMultiplier f o.mult = .ok m ∧ EndsWithLabels f.mesh.region m calls) ∧
+    (f.nvdim = 1 → mplLightness sqrtF f o = .ok calls →
+      ∃ m, setupMultiplier f o.mult = .ok m ∧ EndsWithLabels f.mesh.region m calls) := by
+  refine ⟨?_, ?_, ?_, ?_, ?_⟩
+  · intro h
+    obtain ⟨_, _, m, hm, hcore⟩ := mplScalar_ok_inv f o calls h
+    obtain ⟨ext, keep, lab, _, _, hl, hc⟩ := scalarCore_ok_inv f o m calls hcore
+    exact ⟨m, hm, by rw [hc]; exact endsWithLabels_of _ m lab [_] hl⟩
+  · intro h
+    obtain ⟨_, _, m, keep, lab, hm, _, hl, hc⟩ := mplContour_ok_inv f o calls h
+    exact ⟨m, hm, by rw [hc]; exact endsWithLabels_of _ m lab [_] hl⟩
+  · intro h
+    obtain ⟨_, _, m, hm, hcore⟩ := mplVector_ok_inv f o calls h
+    obtain ⟨_, _, _, _, _, lab, _, _, _, _, _, _, hl, hc⟩ := vectorCore_ok_inv f o m calls hcore
+    exact ⟨m, hm, by rw [hc]; exact endsWithLabels_of _ m lab [_] hl⟩
+  · intro h
+    obtain ⟨_, m, lab, hm, hl, hcases⟩ := mplDefault_ok_inv f o calls h
+    refine ⟨m, hm, ?_⟩
+    rcases hcases with ⟨_, cs, _, hc⟩ | ⟨_, cv, _, hc⟩ | ⟨_, c, cs, cv, _, _, _, hc⟩
+    · rw [hc]; exact endsWithLabels_of _ m lab cs hl
+    · rw [hc]; exact endsWithLabels_of _ m lab cv hl
+    · rw [hc]; exact endsWithLabels_of _ m lab (cs ++ cv) hl
+  · intro h1 h
+    by_cases h2 : f.mesh.region.ndim = 2
+    · rw [lightness_scalar sqrtF f o h2 h1] at h
+      obtain ⟨m, _, _, _, lab, hm, _, _, _, _, hl, hc⟩ := lightCore_ok_inv f o _ _ _ calls h
+      exact ⟨m, hm, by rw [hc]; exact endsWithLabels_of _ m lab [_] hl⟩
+    · unfold mplLightness at h
+      rw [if_pos h2] at h
+      cases h
+
+/-- Non-vacuity of `labels_eq`, `vector_*`, `contour_grid`, `lightness_*`: the example fields
+are plotted by every kind. -/
+example : okB (mplVector exV {}) = true ∧ okB (mplContour exS {}) = true ∧
+    okB (mplLightness (fun q => q) exV {}) = true ∧ okB (mplLightness (fun q => q) exS {}) = true ∧
+    okB (mplDefault exV { useColor := false }) = true ∧ okB (mplDefault exS {}) = true := by
+  decide +kernel
+
+/-! ## default plot `field.mpl()` -/
+
+/-- **Default plot of a 3-component field** = scalar plot of the one component that is NOT
+mapped to an in-plane axis (filtered by `filter_field` or validity) followed by the vector
+plot of the field, with one common multiplier, followed by the labels; so
+`scalar_at_position`, `vector_at_centres` and `vector_components_through_mapping` apply to
+its two parts. -/
+theorem default_plot_three (f : Fld) (o : Opts) (calls : List PlotCall) (h3 : f.nvdim = 3)
+    (h : mplDefault f o = .ok calls) :
+    ∃ m c cs cv lab, setupMultiplier f o.mult = .ok m ∧ thirdComp f (inplaneVdims f) o.pick = .ok c ∧
+      mplScalar (compField f c) { o with mult := some m, filter := some (filterOf f o) } = .ok cs ∧
+      mplVector f { o with mult := some m } = .ok cv ∧ calls = cs ++ cv ++ [lab] ∧
+      (∀ l, leftover f (inplaneVdims f) = [l] → ∃ vs, f.vdims = some vs ∧ vs.getD c "" = l ∧
+        some l ∉ inplaneVdims f) := by
+  obtain ⟨_, m, lab, hm, _, hcases⟩ := mplDefault_ok_inv f o calls h
+  rcases hcases with ⟨h1, _⟩ | ⟨h2, _⟩ | ⟨_, c, cs, cv, hc, hcs, hcv, hcalls⟩
+  · omega
+  · omega
+  · refine ⟨m, c, cs, cv, lab, hm, hc, hcs, hcv, hcalls, ?_⟩
+    intro l hleft
+    have hmem : l ∈ leftover f (inplaneVdims f) := by rw [hleft]; simp
+    have hnot : some l ∉ inplaneVdims f := by
+      unfold leftover at hmem
+      have := (List.mem_filter.mp hmem).2
+      simpa using this
+    cases hk : f.vdimIndex l with
+    | none =>
+      rw [thirdComp_single_none f _ l o.pick hleft hk] at hc
+      cases hc
+    | some k =>
+      rw [thirdComp_single f _ l o.pick k hleft hk] at hc
+      injection hc with hc
+      subst hc
+      obtain ⟨vs, hvs, hks⟩ := vdimIndex_spec f l k hk
+      exact ⟨vs, hvs, hks, hnot⟩
+
+/-! ## refusals -/
+
+/-- **Wrong spatial dimension.**  Every plot kind refuses a field whose mesh is not 2-d. -/
+theorem refuse_not_2d (sqrtF : Rat → Rat) (f : Fld) (o : Opts) (h : f.mesh.region.ndim ≠ 2) :
+    mplScalar f o = .error .runtime ∧ mplContour f o = .error .runtime ∧
+    mplVector f o = .error .runtime ∧ mplDefault f o = .error .runtime ∧
+    mplLightness sqrtF f o = .error .runtime := by
+  refine ⟨?_, ?_, ?_, ?_, ?_⟩
+  · unfold mplScalar; rw [if_pos h]
+  · unfold mplContour; rw [if_pos h]
+  · unfold mplVector; rw [if_pos h]
+  · unfold mplDefault; rw [if_pos h]
+  · unfold mplLightness; rw [if_pos h]
+
+/-- **Wrong component dimension.**  `scalar` refuses fields with more than one component,
+`contour` anything but one component, `mpl()` and `lightness` more than three. -/
+theorem refuse_wrong_nvdim (sqrtF : Rat → Rat) (f : Fld) (o : Opts) :
+    (1 < f.nvdim → ∃ e, mplScalar f o = .error e) ∧
+    (f.nvdim ≠ 1 → ∃ e, mplContour f o = .error e) ∧
+    (3 < f.nvdim → (∃ e, mplDefault f o = .error e) ∧ ∃ e, mplLightness sqrtF f o = .error e) := by
+  refine ⟨?_, ?_, ?_⟩
+  · intro h
+    unfold mplScalar
+    by_cases h2 : f.mesh.region.ndim ≠ 2
+    · rw [if_pos h2]; exact ⟨_, rfl⟩
+    · rw [if_neg h2, if_pos h]; exact ⟨_, rfl⟩
+  · intro h
+    unfold mplContour
+    by_cases h2 : f.mesh.region.ndim ≠ 2
+    · rw [if_pos h2]; exact ⟨_, rfl⟩
+    · rw [if_neg h2, if_pos h]; exact ⟨_, rfl⟩
+  · intro h
+    constructor
+    · unfold mplDefault
+      by_cases h2 : f.mesh.region.ndim ≠ 2
+      · rw [if_pos h2]; exact ⟨_, rfl⟩
+      · rw [if_neg h2]
+        cases hs : setupMultiplier f o.mult with
+        | error e => exact ⟨_, rfl⟩
+        | ok m =>
+          simp only []
+          rw [if_neg (by omega), if_neg (by omega), if_neg (by omega)]; exact ⟨_, rfl⟩
+    · unfold mplLightness
+      by_cases h2 : f.mesh.region.ndim ≠ 2
+      · rw [if_pos h2]; exact ⟨_, rfl⟩
+      · rw [if_neg h2, if_neg (by omega), if_neg (by omega), if_pos h]; exact ⟨_, rfl⟩
+
+/-- **No mapping and no labels.**  `vector` refuses a field without component-to-axis mapping
+unless `vdims=` is given; consequently `mpl()` refuses 2-component fields without a
+mapping, and a scalar field (no labels, no mapping) cannot be drawn as arrows. -/
+theorem refuse_vector_without_mapping (f : Fld) (o : Opts) (hv : o.vdimsArg = none) (hm : f.vmap = []) :
+    (∃ e, mplVector f o = .error e) ∧ (f.nvdim = 2 → ∃ e, mplDefault f o = .error e) := by
+  have hvec : ∀ o' : Opts, o'.vdimsArg = none → ∃ e, mplVector f o' = .error e := by
+    intro o' hv'
+    unfold mplVector
+    by_cases h2 : f.mesh.region.ndim ≠ 2
+    · rw [if_pos h2]; exact ⟨_, rfl⟩
+    · rw [if_neg h2, if_pos (by simp [hv', hm])]; exact ⟨_, rfl⟩
+  refine ⟨hvec o hv, ?_⟩
+  intro h2
+  unfold mplDefault
+  by_cases hd : f.mesh.region.ndim ≠ 2
+  · rw [if_pos hd]; exact ⟨_, rfl⟩
+  · rw [if_neg hd]
+    cases hs : setupMultiplier f o.mult with
+    | error e => exact ⟨_, rfl⟩
+    | ok m =>
+      simp only []
+      rw [if_neg (by omega), if_pos h2]
+      obtain ⟨e, he⟩ := hvec { o with mult := some m } hv
+      rw [he]; exact ⟨_, rfl⟩
+
+/-- **Filter of the wrong dimension.**  A `filter_field` with more than one component, or
+not defined on a 2-d mesh, makes `scalar` and `contour` fail; a multiplier outside the SI
+table makes `scalar` fail. -/
+theorem refuse_bad_filter_or_multiplier (f flt : Fld) (o : Opts) :
+    (o.filter = some flt → (flt.nvdim ≠ 1 ∨ flt.mesh.region.ndim ≠ 2) →
+      (∃ e, mplScalar f o = .error e) ∧ ∃ e, mplContour f o = .error e) ∧
+    (∀ m, o.mult = some m → rsiPrefix? m = none → ∃ e, mplScalar f o = .error e) := by
+  constructor
+  · intro hflt hbad
+    have hk : filterKeep f (filterOf f o) = .error .value := by
+      have : filterOf f o = flt := by simp [filterOf, hflt]
+      rw [this]
+      unfold filterKeep
+      by_cases hb : flt.nvdim ≠ 1
+      · rw [if_pos hb]
+      · rcases hbad with hb' | hb'
+        · exact absurd hb' hb
+        · rw [if_neg hb, if_pos hb']
+    constructor
+    · unfold mplScalar
+      by_cases h2 : f.mesh.region.ndim ≠ 2
+      · rw [if_pos h2]; exact ⟨_, rfl⟩
+      · rw [if_neg h2]
+        by_cases h1 : f.nvdim > 1
+        · rw [if_pos h1]; exact ⟨_, rfl⟩
+        · rw [if_neg h1]
+          cases hs : setupMultiplier f o.mult with
+          | error e => exact ⟨_, rfl⟩
+          | ok m =>
+            simp only [scalarCore]
+            cases he : extent f.mesh.region m with
+            | error e => exact ⟨_, rfl⟩
+            | ok ext => simp only [hk]; exact ⟨_, rfl⟩
+    · unfold mplContour
+      by_cases h2 : f.mesh.region.ndim ≠ 2
+      · rw [if_pos h2]; exact ⟨_, rfl⟩
+      · rw [if_neg h2]
+        by_cases h1 : f.nvdim ≠ 1
+        · rw [if_pos h1]; exact ⟨_, rfl⟩
+        · rw [if_neg h1]
+          cases hs : setupMultiplier f o.mult with
+          | error e => exact ⟨_, rfl⟩
+          | ok m => simp only [hk]; exact ⟨_, rfl⟩
+  · intro m hm hp
+    unfold mplScalar
+    by_cases h2 : f.mesh.region.ndim ≠ 2
+    · rw [if_pos h2]; exact ⟨_, rfl⟩
+    · rw [if_neg h2]
+      by_cases h1 : f.nvdim > 1
+      · rw [if_pos h1]; exact ⟨_, rfl⟩
+      · rw [if_neg h1]
+        simp only [setupMultiplier, hm, scalarCore]
+        cases he : extent f.mesh.region m with
+        | error e => exact ⟨_, rfl⟩
+        | ok ext =>
+          simp only []
+          cases hk : filterKeep f (filterOf f o) with
+          | error e => exact ⟨_, rfl⟩
+          | ok keep => simp only [axisLabels, hp]; exact ⟨_, rfl⟩
+
+/-- Non-vacuity of the refusal theorems: a 3-d example mesh, and the example vector field
+stripped of its mapping, are refused. -/
+example : okB (mplScalar { exS with mesh := { exMesh with region := { exRegion with pmin := [0, 0, 0], pmax := [4, 6, 1] } } } {}) = false ∧
+    okB (mplVector { exV with vmap := [] } {}) = false ∧ okB (mplScalar exV {}) = false ∧
+    okB (mplScalar exS { mult := some (1/100000000) }) = false := by
+  decide +kernel
+
+/-! ## SI prefixes and the default multiplier -/
+
+/-- The mirrored SI table is its own inverse: looking a table multiplier up in
+`rsi_prefixes` returns the prefix it is stored under (17 entries, by evaluation). -/
+theorem si_table_inverse (p : String) (m : Rat) (h : (p, m) ∈ siTable) : rsiPrefix? m = some p := by
+  obtain ⟨k, hk, rfl⟩ := (mem_siTable p m).mp h
+  exact rsiPrefix_table (p, k) hk
+
+/-- Decades of the table are disjoint: at most one entry puts a value into `[1, 1000)`, so the
+order in which `si_multiplier` scans the table does not matter. -/
+theorem si_decade_unique (v : Rat) (p p' : String) (m m' : Rat) (h : (p, m) ∈ siTable)
+    (h' : (p', m') ∈ siTable) (hd : inDecade v m = true) (hd' : inDecade v m' = true) :
+    m = m' ∧ p = p' := by
+  obtain ⟨k, hk, rfl⟩ := (mem_siTable p m).mp h
+  obtain ⟨k', hk', rfl⟩ := (mem_siTable p' m').mp h'
+  have := decade_unique (absR v) k k' ((inDecade_iff _ _).mp hd) ((inDecade_iff _ _).mp hd')
+  subst this
+  have e1 := rsiPrefix_table (p, k) hk
+  have e2 := rsiPrefix_table (p', k) hk'
+  rw [e1] at e2
+  injection e2 with e2
+  exact ⟨rfl, e2⟩
+
+/-- `si_multiplier` of a non-zero value returns `m` exactly when `m` is the table entry with
+`1 ≤ |value| / m < 1000`. -/
+theorem si_multiplier_spec (v m : Rat) (hv : v ≠ 0) :
+    siMultiplier v = some m ↔ ∃ p, (p, m) ∈ siTable ∧ 1 ≤ absR v / m ∧ absR v / m < 1000 := by
+  constructor
+  · intro h
+    obtain ⟨p, k, hk, hm, hd⟩ := siMultiplier_sound v m hv h
+    exact ⟨p, (mem_siTable p m).mpr ⟨k, hk, hm⟩, hd⟩
+  · rintro ⟨p, hp, hd⟩
+    obtain ⟨k, hk, rfl⟩ := (mem_siTable p m).mp hp
+    exact siMultiplier_complete v hv p k hk hd
+
+/-- `si_multiplier` succeeds for every magnitude from `1e-24` up to (excluding) `1e27`. -/
+theorem si_multiplier_total (v : Rat) (hv : v ≠ 0) (h1 : p1000 (-8) ≤ absR v) (h2 : absR v < p1000 9) :
+    ∃ p m, (p, m) ∈ siTable ∧ siMultiplier v = some m := by
+  obtain ⟨p, k, hk, hs⟩ := siMultiplier_total v hv h1 h2
+  exact ⟨p, p1000 k, (mem_siTable p _).mpr ⟨k, hk, rfl⟩, hs⟩
+
+/-- **Default multiplier.**  When no multiplier is given, the one computed from the region
+(`si_max_multiplier(edges)`) is a table entry — so it has a prefix and the labels can be
+written — for which the longest edge measures between 1 and 1000 units and no edge reaches
+1000 units. -/
+theorem default_multiplier_decade (f : Fld) (hinv : f.mesh.Inv) (m : Rat)
+    (h : setupMultiplier f none = .ok m) :
+    (∃ pre, (pre, m) ∈ siTable ∧ rsiPrefix? m = some pre) ∧
+    (∃ a, a < f.mesh.region.ndim ∧ 1 ≤ f.mesh.region.edge a / m ∧ f.mesh.region.edge a / m < 1000) ∧
+    ∀ a, a < f.mesh.region.ndim → f.mesh.region.edge a / m < 1000 := by
+  obtain ⟨⟨_, _, _, _, _, hlt⟩, _, _⟩ := hinv
+  have hedge : ∀ a, a < f.mesh.region.ndim → 0 < f.mesh.region.edge a := by
+    intro a ha
+    have := hlt a ha
+    unfold Region.edge
+    linarith
+  have habs : ∀ a, a < f.mesh.region.ndim → absR (f.mesh.region.edge a) = f.mesh.region.edge a := by
+    intro a ha
+    rw [absR_eq_abs, abs_of_pos (hedge a ha)]
+  simp only [setupMultiplier, siMaxMultiplier] at h
+  obtain ⟨hmem, hall⟩ := maxOpt_ok _ m h
+  obtain ⟨e, he, hsm⟩ := List.mem_map.mp hmem
+  have he' : ∃ a, a < f.mesh.region.ndim ∧ f.mesh.region.edge a = e := by
+    unfold Region.edges tab at he
+    obtain ⟨a, ha, hae⟩ := List.mem_map.mp he
+    exact ⟨a, List.mem_range.mp ha, hae⟩
+  obtain ⟨a, ha, rfl⟩ := he'
+  obtain ⟨p, k, hk, hmk, hd1, hd2⟩ := siMultiplier_sound _ m (ne_of_gt (hedge a ha)) hsm
+  rw [habs a ha] at hd1 hd2
+  have hmpos : 0 < m := by rw [hmk]; exact p1000_pos k
+  refine ⟨⟨p, (mem_siTable p m).mpr ⟨k, hk, hmk⟩, ?_⟩, ⟨a, ha, hd1, hd2⟩, ?_⟩
+  · rw [hmk]; exact rsiPrefix_table (p, k) hk
+  · intro b hb
+    have hbm : siMultiplier (f.mesh.region.edge b) ∈ f.mesh.region.edges.map siMultiplier := by
+      apply List.mem_map.mpr
+      refine ⟨f.mesh.region.edge b, ?_, rfl⟩
+      unfold Region.edges tab
+      exact List.mem_map.mpr ⟨b, List.mem_range.mpr hb, rfl⟩
+    obtain ⟨m', hm', hle⟩ := hall _ hbm
+    obtain ⟨_, k', _, hmk', _, hd2'⟩ := siMultiplier_sound _ m' (ne_of_gt (hedge b hb)) hm'
+    rw [habs b hb] at hd2'
+    have hm'pos : 0 < m' := by rw [hmk']; exact p1000_pos k'
+    have : f.mesh.region.edge b / m ≤ f.mesh.region.edge b / m' :=
+      div_le_div_of_nonneg_left (hedge b hb).le hm'pos hle
+    linarith
+
+/-- The default multiplier exists whenever every edge of the region lies in `[1e-24, 1e27)`. -/
+theorem default_multiplier_exists (f : Fld) (hinv : f.mesh.Inv)
+    (hr : ∀ a, a < f.mesh.region.ndim →
+      p1000 (-8) ≤ f.mesh.region.edge a ∧ f.mesh.region.edge a < p1000 9) :
+    ∃ m, setupMultiplier f none = .ok m := by
+  obtain ⟨⟨hpos, _, _, _, _, hlt⟩, _, _⟩ := hinv
+  simp only [setupMultiplier, siMaxMultiplier]
+  apply maxOpt_total
+  · intro hnil
+    have : (f.mesh.region.edges.map siMultiplier).length = 0 := by rw [hnil]; rfl
+    simp [Region.edges] at this
+    unfold Region.ndim at this
+    omega
+  · intro x hx
+    obtain ⟨e, he, hxe⟩ := List.mem_map.mp hx
+    unfold Region.edges tab at he
+    obtain ⟨a, ha, hae⟩ := List.mem_map.mp he
+    have ha' := List.mem_range.mp ha
+    have hedge : 0 < f.mesh.region.edge a := by
+      have := hlt a ha'
+      unfold Region.edge
+      linarith
+    have habs : absR (f.mesh.region.edge a) = f.mesh.region.edge a := by
+      rw [absR_eq_abs, abs_of_pos hedge]
+    obtain ⟨_, k, _, hs⟩ := siMultiplier_total (f.mesh.region.edge a) (ne_of_gt hedge)
+      (by rw [habs]; exact (hr a ha').1) (by rw [habs]; exact (hr a ha').2)
+    exact ⟨p1000 k, by rw [← hxe, ← hae, hs]⟩
+
+/-- Non-vacuity: the example region `[0,4]×[0,6]` gets the multiplier 1 (no prefix); a region
+of 40 nm × 60 nm gets `1e-9`, prefix `n`. -/
+example : setupMultiplier exS none = .ok 1 ∧ rsiPrefix? 1 = some "" ∧
+    siMaxMultiplier [4/100000000, 6/100000000] = .ok (1/1000000000) ∧
+    rsiPrefix? (1/1000000000) = some "n" := by
+  decide +kernel
+
+/-! ## further non-vacuity checks -/
+
+/-- the example vector field: arrows use `b` (mapped to `x`) and `a` (mapped to `y`), exactly
+one label (`c`) is left over for the colour, and its hypotheses for `vector_colour_third` hold -/
+example : inplaneVdims exV = [some "b", some "a"] ∧ leftover exV (inplaneVdims exV) = ["c"] ∧
+    exV.nvdim = 3 ∧ exV.mesh.region.ndim = 2 ∧
+    okB (colourOf exV {} (inplaneVdims exV)) = true ∧
+    okB (colourOf exV { aux := some exOnes } (inplaneVdims exV)) = true := by
+  decide +kernel
+
+example : normalise 2 10 (0, 1) 2 = 0 ∧ normalise 2 10 (0, 1) 10 = 1 ∧ normalise 2 10 (0, 1) 4 = 1/4 ∧
+    normalise 3 3 (0, 1) 3 = 0 := by
+  decide +kernel
+
+example : ∀ a, a < exS.mesh.region.ndim →
+    p1000 (-8) ≤ exS.mesh.region.edge a ∧ exS.mesh.region.edge a < p1000 9 := by
+  decide +kernel
+
 end DFV.C20
